@@ -144,8 +144,222 @@ def frame(attr, allowed, files=None):
             visit(mod, [])
 
 
+# ---------------------------------------------------------------------------------------------------------------
+# statement-by-statement translation of small state-machine methods (AsyncAND._cbDeferred / __init__,
+# ArgumentUnslicer.updateChild): the attributes of `self` that matter become Coq variables, every path through the body
+# becomes one branch of a nested `if`, a call listed in `fires` sets the output `fire`, `return` ends the path.
+# Anything else raises Untranslatable.
+
+class SM:
+    def __init__(self, where, attrs, params, fires, skip=(), lens=None):
+        self.where = where
+        self.attrs = attrs          # python attribute of self -> (coq variable, "Z" | "bool")
+        self.params = params        # python parameter -> (coq variable, "bool")
+        self.fires = fires          # unparsed callee -> "true" (callback) | "false" (errback)
+        self.skip = skip            # unparsed statements that do not touch the state (checked verbatim)
+        self.lens = lens or {}      # python list parameter -> coq variable holding its length
+
+    def bad(self, node, why):
+        raise P.Untranslatable("%s: %s: %s" % (self.where, why, U(node)[:160]))
+
+    def attr_of(self, e):
+        if isinstance(e, ast.Attribute) and isinstance(e.value, ast.Name) and e.value.id == "self" and e.attr in self.attrs:
+            return self.attrs[e.attr]
+        return None
+
+    def zexpr(self, e):
+        a = self.attr_of(e)
+        if a and a[1] == "Z":
+            return a[0]
+        if isinstance(e, ast.Constant) and isinstance(e.value, int) and not isinstance(e.value, bool):
+            return "(%d)%%Z" % e.value
+        if isinstance(e, ast.Call) and isinstance(e.func, ast.Name) and e.func.id == "len" and len(e.args) == 1 \
+                and isinstance(e.args[0], ast.Name) and e.args[0].id in self.lens and not e.keywords:
+            return self.lens[e.args[0].id]
+        if isinstance(e, ast.BinOp) and isinstance(e.op, (ast.Add, ast.Sub)):
+            return "(%s %s %s)%%Z" % (self.zexpr(e.left), "+" if isinstance(e.op, ast.Add) else "-", self.zexpr(e.right))
+        self.bad(e, "integer expression not understood")
+
+    def cond(self, e):
+        a = self.attr_of(e)
+        if a:
+            return a[0] if a[1] == "bool" else "(negb (Z.eqb %s 0))" % a[0]
+        if isinstance(e, ast.Name) and e.id in self.params:
+            return self.params[e.id][0]
+        if isinstance(e, ast.Name) and e.id in self.lens:
+            return "(negb (Z.eqb %s 0))" % self.lens[e.id]
+        if isinstance(e, ast.Constant) and isinstance(e.value, bool):
+            return "true" if e.value else "false"
+        if isinstance(e, ast.UnaryOp) and isinstance(e.op, ast.Not):
+            return "(negb %s)" % self.cond(e.operand)
+        if isinstance(e, ast.BoolOp):
+            f = "andb" if isinstance(e.op, ast.And) else "orb"
+            out = self.cond(e.values[0])
+            for v in e.values[1:]:
+                out = "(%s %s %s)" % (f, out, self.cond(v))
+            return out
+        if isinstance(e, ast.Compare) and len(e.ops) == 1:
+            ops = {ast.Eq: "Z.eqb %s %s", ast.NotEq: "negb (Z.eqb %s %s)", ast.Lt: "Z.ltb %s %s", ast.LtE: "Z.leb %s %s",
+                   ast.Gt: "Z.ltb %(b)s %(a)s", ast.GtE: "Z.leb %(b)s %(a)s"}
+            for k, fmt in ops.items():
+                if isinstance(e.ops[0], k):
+                    a_, b_ = self.zexpr(e.left), self.zexpr(e.comparators[0])
+                    return "(" + (fmt % dict(a=a_, b=b_) if "%(" in fmt else fmt % (a_, b_)) + ")"
+        self.bad(e, "condition not understood")
+
+    def final(self):
+        return "(" + ", ".join([v for v, _ in self.attrs.values()] + ["fire"]) + ")"
+
+    def run(self, stmts, fired=False):
+        if not stmts:
+            return self.final()
+        st, rest = stmts[0], list(stmts[1:])
+        src = U(st)
+        if src in self.skip or (isinstance(st, ast.Expr) and isinstance(st.value, ast.Constant)) or isinstance(st, ast.Pass) \
+                or (isinstance(st, ast.If) and U(st.test) in ("self.debug", "self.debugSend")):
+            return self.run(rest, fired)
+        if isinstance(st, ast.Return):
+            return self.final()
+        if isinstance(st, ast.If):
+            c = self.cond(st.test)
+            return "(if %s\n then %s\n else %s)" % (c, self.run(list(st.body) + rest, fired), self.run(list(st.orelse) + rest, fired))
+        if isinstance(st, ast.AugAssign) and isinstance(st.op, (ast.Add, ast.Sub)):
+            a = self.attr_of(st.target)
+            if a and a[1] == "Z":
+                return "(let %s := (%s %s %s)%%Z in\n %s)" % (a[0], a[0], "+" if isinstance(st.op, ast.Add) else "-",
+                                                              self.zexpr(st.value), self.run(rest, fired))
+        if isinstance(st, ast.Assign) and len(st.targets) == 1:
+            a = self.attr_of(st.targets[0])
+            if a:
+                v = self.zexpr(st.value) if a[1] == "Z" else self.cond(st.value)
+                return "(let %s := %s in\n %s)" % (a[0], v, self.run(rest, fired))
+        if isinstance(st, ast.Expr) and isinstance(st.value, ast.Call) and U(st.value.func) in self.fires:
+            if fired:
+                self.bad(st, "a second fire on one path")
+            return "(let fire := Some %s in\n %s)" % (self.fires[U(st.value.func)], self.run(rest, True))
+        self.bad(st, "statement not understood")
+
+
+def sm_define(name, binders, rty, body):
+    return "Definition %s %s : %s :=\n let fire := @None bool in\n %s." % (name, binders, rty, body)
+
+
+def gen_gift_network(out, bro, ref):
+    """AsyncAND, ArgumentUnslicer.updateChild / receiveClose, CallUnslicer.receiveClose, TheirReferenceUnslicer"""
+    util = P.load("util.py")
+    callm = P.load("call.py")
+    # ---- AsyncAND._cbDeferred / __init__
+    cb = P.find_def(util, "AsyncAND._cbDeferred")
+    if [a.arg for a in cb.args.args] != ["self", "result", "succeeded"]:
+        raise P.Untranslatable("AsyncAND._cbDeferred: parameters changed")
+    sm = SM("AsyncAND._cbDeferred", {"remaining": ("remaining", "Z"), "_fired": ("fired", "bool")}, {"succeeded": ("succeeded", "bool")},
+            {"self.callback": "true", "self.errback": "false"})
+    out.append(sm_define("and_cb", "(remaining : Z) (fired : bool) (succeeded : bool)", "Z * bool * option bool", sm.run(strip_doc(cb.body)))
+               + "   (* util.py AsyncAND._cbDeferred, statement by statement *)")
+    ini = P.find_def(util, "AsyncAND.__init__")
+    if [a.arg for a in ini.args.args] != ["self", "deferredList"]:
+        raise P.Untranslatable("AsyncAND.__init__: parameters changed")
+    loop = "for d in deferredList:\n    d.addCallbacks(self._cbDeferred, self._cbDeferred, callbackArgs=(True,), errbackArgs=(False,))"
+    ibody = strip_doc(ini.body)
+    if U(ibody[-1]) != loop:
+        raise P.Untranslatable("AsyncAND.__init__: every component must get _cbDeferred(True)/(False) as its last statement: %s" % U(ibody[-1]))
+    sm = SM("AsyncAND.__init__", {"remaining": ("remaining", "Z"), "_fired": ("fired", "bool")}, {}, {"self.callback": "true"},
+            skip=("defer.Deferred.__init__(self)", loop), lens={"deferredList": "n"})
+    out.append("Definition and_init_full (n : Z) : Z * bool * option bool :=\n let remaining := 0%Z in let fired := false in let fire := @None bool in\n "
+               + sm.run(ibody) + ".   (* util.py AsyncAND.__init__ for a list of n Deferreds *)")
+    out.append("Definition and_init (n : Z) : Z * bool := fst (and_init_full n).")
+    acls = P.find_class(util, "AsyncAND")
+    if [U(b) for b in acls.bases] != ["defer.Deferred"] or \
+            sorted(n.name for n in acls.body if isinstance(n, ast.FunctionDef)) != ["__init__", "_cbDeferred"]:
+        raise P.Untranslatable("AsyncAND: base class or method set changed")
+    frame("remaining", {("util.py", "AsyncAND.__init__"), ("util.py", "AsyncAND._cbDeferred")}, files=["util.py", "call.py", "broker.py"])
+    # ---- ArgumentUnslicer.updateChild
+    uc = P.find_def(callm, "ArgumentUnslicer.updateChild")
+    if [a.arg for a in uc.args.args] != ["self", "obj", "which"]:
+        raise P.Untranslatable("ArgumentUnslicer.updateChild: parameters changed")
+    store = "if isinstance(which, int):\n    self.args[which] = obj\nelse:\n    self.kwargs[which] = obj"
+    ub = strip_doc(uc.body)
+    if store not in [U(x) for x in ub]:
+        raise P.Untranslatable("ArgumentUnslicer.updateChild no longer stores the resolved object in args[which] / kwargs[which]")
+    sm = SM("ArgumentUnslicer.updateChild", {"num_unreferenceable_children": ("nunref", "Z"), "_all_children_are_referenceable_d": ("has_all", "bool")},
+            {}, {"self._all_children_are_referenceable_d.callback": "true"}, skip=(store,))
+    body = sm.run(ub)
+    out.append("Definition update_child_full (nunref : Z) (has_all : bool) : Z * bool * option bool :=\n let fire := @None bool in\n " + body
+               + ".   (* call.py ArgumentUnslicer.updateChild, statement by statement *)")
+    out.append("Definition update_child (nunref : Z) (has_all : bool) : Z * bool :=\n"
+               " match update_child_full nunref has_all with (n, _, f) => (n, match f with Some _ => true | None => false end) end.")
+    # ---- ArgumentUnslicer.receiveChild: every Deferred argument is counted and watched, every ready_deferred is kept
+    acl = P.find_class(callm, "ArgumentUnslicer")
+    counted = [n for n in ast.walk(acl) if isinstance(n, ast.If) and U(n.test) == "isinstance(argvalue, defer.Deferred)"
+               and any(U(x) == "self.num_unreferenceable_children += 1" for x in n.body)
+               and any(U(x).startswith("argvalue.addCallback(self.updateChild, ") for x in n.body)]
+    kept = [n for n in ast.walk(acl) if isinstance(n, ast.If) and U(n.test) == "ready_deferred"
+            and any(U(x) == "self._ready_deferreds.append(ready_deferred)" for x in n.body)]
+    if len(counted) < 1 or len(kept) < 1 or len(counted) != len(kept):
+        raise P.Untranslatable("ArgumentUnslicer.receiveChild: bookkeeping of unready arguments changed (%d counted, %d kept)" % (len(counted), len(kept)))
+    # ---- ArgumentUnslicer.receiveClose: dl = [all-children-referenceable if nunref] + ready_deferreds; AsyncAND(dl) if dl
+    rc = P.find_def(callm, "ArgumentUnslicer.receiveClose")
+    rsrc = [U(x) for x in strip_doc(rc.body)]
+    guard = [x for x in strip_doc(rc.body) if isinstance(x, ast.If) and U(x.test) == "self.num_unreferenceable_children"]
+    if len(guard) != 1 or [U(x) for x in guard[0].body] != ["d = self._all_children_are_referenceable_d = defer.Deferred()", "dl.append(d)"] \
+            or guard[0].orelse:
+        raise P.Untranslatable("ArgumentUnslicer.receiveClose: the all-children-referenceable Deferred is no longer created under `if self.num_unreferenceable_children:`")
+    try:
+        i_new, i_g, i_ext = rsrc.index("dl = []"), rsrc.index(U(guard[0])), rsrc.index("dl.extend(self._ready_deferreds)")
+    except ValueError:
+        raise P.Untranslatable("ArgumentUnslicer.receiveClose: construction of dl changed: %s" % rsrc)
+    # `X = None; if L: X = AsyncAND(L)` may live in a one-parameter module-level helper `if not p: return None; return AsyncAND(p)`:
+    # both yield None for an empty list and AsyncAND of that very list otherwise
+    helpers = [n.name for n in callm.body if isinstance(n, ast.FunctionDef) and len(n.args.args) == 1 and not n.decorator_list
+               and [U(x) for x in strip_doc(n.body)] == ["if not %s:\n    return None" % n.args.args[0].arg, "return AsyncAND(%s)" % n.args.args[0].arg]]
+    tail = rsrc[i_ext + 1:]
+    tail_ok = tail == ["ready_deferred = None", "if dl:\n    ready_deferred = AsyncAND(dl)", "return (self, ready_deferred)"] \
+        or tail in [["return (self, %s(dl))" % h] for h in helpers]
+    if not (i_new < i_g < i_ext) or not tail_ok:
+        raise P.Untranslatable("ArgumentUnslicer.receiveClose: construction of dl changed: %s" % rsrc)
+    out.append("Definition args_close_has_all (nunref : Z) : bool := negb (Z.eqb nunref 0).   (* receiveClose: `if self.num_unreferenceable_children:` creates it *)")
+    out.append("Definition args_close_dl_len (nunref nready : Z) : Z := ((if negb (Z.eqb nunref 0) then 1 else 0) + nready)%Z."
+               "   (* dl = [d]? ++ self._ready_deferreds *)")
+    frame("num_unreferenceable_children", {("call.py", "ArgumentUnslicer.start"), ("call.py", "ArgumentUnslicer.receiveChild"),
+                                           ("call.py", "ArgumentUnslicer.updateChild"), ("call.py", "ArgumentUnslicer.receiveClose"),
+                                           ("call.py", "ArgumentUnslicer.describe")}, files=["call.py", "broker.py", "referenceable.py"])
+    # ---- CallUnslicer: the arguments' ready_deferred is kept and wrapped in one more AsyncAND
+    ccl = P.find_class(callm, "CallUnslicer")
+    ckept = [n for n in ast.walk(ccl) if isinstance(n, ast.If) and U(n.test) == "ready_deferred"
+             and any(U(x) == "self._ready_deferreds.append(ready_deferred)" for x in n.body)]
+    crc = U(P.find_def(callm, "CallUnslicer.receiveClose"))
+    comb = ["AsyncAND(self._ready_deferreds)"] + ["%s(self._ready_deferreds)" % h for h in helpers]
+    hit = [c for c in comb if c in crc]
+    if len(ckept) != 1 or len(hit) != 1 or (hit[0].startswith("AsyncAND") and "self._ready_deferreds" not in crc.split(hit[0])[0]):
+        raise P.Untranslatable("CallUnslicer: the ready_deferred of the arguments is no longer combined by AsyncAND when present")
+    # ---- TheirReferenceUnslicer.receiveClose: object first, then readiness; a failed gift gives a placeholder and an errback
+    tr = P.find_def(ref, "TheirReferenceUnslicer.receiveClose")
+    inner = {n.name: [U(x) for x in strip_doc(n.body) if not U(x).startswith("log.")] for n in tr.body if isinstance(n, ast.FunctionDef)}
+    if inner.get("_ready") != ["obj_deferred.callback(rref)", "ready_deferred.callback(rref)"]:
+        raise P.Untranslatable("TheirReferenceUnslicer._ready changed: %s" % inner.get("_ready"))
+    fl = inner.get("_failed") or []
+    if len(fl) != 2 or not fl[0].startswith("obj_deferred.callback(") or fl[1] != "ready_deferred.errback(f)":
+        raise P.Untranslatable("TheirReferenceUnslicer._failed changed: %s" % fl)
+    tsrc = U(tr)
+    for frag in ("d = self.broker.tub.getReference(self.url)", "d.addBoth(self.ackGift)", "d.addCallbacks(_ready, _failed)",
+                 "return (obj_deferred, ready_deferred)"):
+        if frag not in tsrc:
+            raise P.Untranslatable("TheirReferenceUnslicer.receiveClose no longer contains `%s`" % frag)
+    if not tsrc.index("d.addBoth(self.ackGift)") < tsrc.index("d.addCallbacks(_ready, _failed)"):
+        raise P.Untranslatable("TheirReferenceUnslicer.receiveClose: ackGift no longer precedes _ready/_failed")
+    # the acknowledgement goes through broker.remote_broker, which Broker.finish sets to None
+    ack = [U(x) for x in strip_doc(P.find_def(ref, "TheirReferenceUnslicer.ackGift").body)]
+    fin = [U(x) for x in strip_doc(P.find_def(bro, "Broker.finish").body)]
+    ack_fails = (len(ack) == 2 and ack[0].startswith("if self.giftID != 0:\n    rb = self.broker.remote_broker\n    rb.callRemoteOnly(")
+                 and ack[1] == "return rref" and "self.remote_broker = None" in fin)
+    out.append("Definition ack_after_loss_fails : bool := %s.   (* ackGift uses broker.remote_broker unguarded; Broker.finish sets it to None *)"
+               % ("true" if ack_fails else "false"))
+    if not ack_fails and ack != ["return rref"] and not any("remote_broker" in a for a in ack):
+        raise P.Untranslatable("TheirReferenceUnslicer.ackGift changed: %s" % ack)
+
+
 def generate():
-    out = [P.PRELUDE % dict(src="slicers/root.py, banana.py, broker.py, eventual.py, referenceable.py")]
+    out = [P.PRELUDE % dict(src="slicers/root.py, banana.py, broker.py, eventual.py, referenceable.py, call.py, util.py")]
     out.append("Inductive pop_end := PopFront | PopBack.\nInductive push_end := PushBack | PushFront.\n"
                "Inductive iter_dir := IterForward | IterReverse.\nInductive hol := HolBlocking | HolNone.")
 
@@ -283,6 +497,8 @@ def generate():
     sets_waiting = bool(post_src) and post_src[0] == "self._waiting_for_call_to_be_ready = True"
     if hol_guard and not sets_waiting:
         raise P.Untranslatable("Broker.doNextCall: the waiting flag is tested but not set right after the dequeue")
+    out.append("Definition checks_disconnected : bool := %s.   (* Broker.doNextCall: `if self.disconnected: return` before the dequeue *)"
+               % ("true" if "self.disconnected" in tests else "false"))
     head_of_line = "HolBlocking" if (hol_guard and sets_waiting) else "HolNone"
     out.append("Definition head_of_line : hol := %s.   (* `if self._waiting_for_call_to_be_ready: return` before the dequeue, flag set after it *)"
                % head_of_line)
@@ -347,6 +563,15 @@ def generate():
     fin = P.find_def(bro, "Broker.finish")
     fbody = strip_doc(fin.body)
     fuses = [k for k, st in enumerate(fbody) if any(isinstance(n, ast.Attribute) and n.attr == "inboundDeliveryQueue" for n in ast.walk(st))]
+    clears = any(U(fbody[k]) == "self.inboundDeliveryQueue = []" for k in fuses)
+    out.append("Definition finish_clears_inq : bool := %s.   (* Broker.finish: self.inboundDeliveryQueue = [] after disconnected = True *)"
+               % ("true" if clears else "false"))
+    fsrc = [U(x) for x in fbody]
+    if fsrc[:1] != ["if self.disconnected:\n    return"] or "self.disconnected = True" not in fsrc:
+        raise P.Untranslatable("Broker.finish no longer sets self.disconnected exactly once, guarded against a second run")
+    bcl = U(P.find_def(bro, "Broker.connectionLost"))
+    if "self.finish(why)" not in bcl:
+        raise P.Untranslatable("Broker.connectionLost no longer calls finish")
     if fuses:
         i_disc = index_of(fbody, lambda st: U(st) == "self.disconnected = True", "self.disconnected = True")
         if "self.disconnected" not in tests:
@@ -373,11 +598,23 @@ def generate():
         raise P.Untranslatable("PBRootUnslicer.receiveChild no longer schedules the call")
     # _doCall: schema check (may raise) strictly before the method gets control
     dc = P.find_def(bro, "Broker._doCall")
-    dsrc = U(dc)
-    a = dsrc.find("delivery.methodSchema.checkAllArgs(args, kwargs, True)")
-    b = dsrc.find("obj.doRemoteCall(delivery.methodname, args, kwargs)")
-    if a < 0 or b < 0 or not a < b:
+    top = strip_doc(dc.body)
+    def first_stmt_with(attr):
+        hits = [k for k, st in enumerate(top) if any(isinstance(n, ast.Call) and isinstance(n.func, ast.Attribute) and n.func.attr == attr
+                                                      for n in ast.walk(st))]
+        return hits
+    a, b = first_stmt_with("checkAllArgs"), first_stmt_with("doRemoteCall")
+    if len(a) != 1 or not b or not a[0] < min(b):
         raise P.Untranslatable("Broker._doCall: checkAllArgs no longer precedes doRemoteCall")
+    chk = top[a[0]]
+    if not (isinstance(chk, ast.If) and U(chk.test) == "delivery.methodSchema" and not chk.orelse and len(chk.body) == 1
+            and isinstance(chk.body[0], ast.Expr) and isinstance(chk.body[0].value, ast.Call)
+            and U(chk.body[0].value.func) == "delivery.methodSchema.checkAllArgs" and len(chk.body[0].value.args) == 3
+            and U(chk.body[0].value.args[2]) == "True"):
+        raise P.Untranslatable("Broker._doCall: the schema check changed: " + U(chk))
+
+    # ---------------------------------------------------------------- the Deferred network of third-party references
+    gen_gift_network(out, bro, ref)
 
     # ---------------------------------------------------------------- eventual queue
     evm = P.load("eventual.py")
